@@ -1,5 +1,6 @@
 import NodisVerif.Model.RespWriter
 import NodisVerif.Model.Resp
+import NodisVerif.Model.Conn
 import NodisVerif.Spec.RespEnc
 /-
   Reference semantics of a buffered RESP reply writer, written from the protocol specification and from
@@ -94,5 +95,10 @@ def isWrite : Call → Bool
   | .bytes => false
   | .hasError => false
   | _ => true
+
+/-- what `handleConn` (redis/server.go) does with the writer for a sequence of commands whose replies are `rs`:
+    `handler(c, c.cmd)` writes the tokens of the reply, then `_ = c.Flush()` — one Flush after every command -/
+def serveCalls (rs : List (List Resp.Tok)) : List Call :=
+  rs.flatMap fun r => r.map callOfTok ++ [.flush none]
 
 end NodisVerif.Spec.RespWriterSpec
